@@ -67,6 +67,16 @@ func engineSearchInv(ctx *Ctx) {
 		if useShipped && len(words) > 3000 {
 			words = words[:3000]
 		}
+		if g := ctx.G(d); !useShipped && g%4 == 2 && len(cmds) > 0 && len(cmds) < 400 {
+			// a database with semantic embeddings attached (word vectors and command embeddings next to the binary): ordinary
+			// ones, and files whose numbers are not finite or so large that sums overflow - the answer is still a ranked list of scores
+			fl := []string{"unit", "scaled", "non-finite", "huge"}[(g/4)%4]
+			if attachEmbeddings(ctx, r, db, fl) {
+				dbName += "/embeddings-" + fl
+				ctx.R.Path("databases-with-embeddings", 1)
+				ctx.R.Path("databases-with-embeddings-"+fl, 1)
+			}
+		}
 		cdb := database.NewCachedDatabase(db)
 		mdb := database.NewMonitoredDatabase(db)
 		nq := nQ
